@@ -37,12 +37,27 @@ class C07(Prop):
         driver.quiet_process()
 
     def strategy(self, tier):
+        idx = st.integers(0, 11)
         op = st.tuples(st.sampled_from(['reg', 'reg', 'reg', 'unreg', 'unreg', 'unreg_nested', 'fire', 'fire_detached', 'fire_detached', 'tick', 'tick', 'tick', 'tick', 'unreg_again', 'fire_then_reg', 'fire_then_reg', 'fire_inst', 'fire_inst']),
-                       st.integers(0, 11), st.integers(0, 11)).map(list)
+                       idx, idx).map(lambda t: [list(t)])
+        # macro shapes (expanded here; the spec holds primitive ops only): a component leaves, its unregistration completes,
+        # and it (or its former subtree) is registered elsewhere / several unregistrations nested in one another before any tick
+        cycle = st.tuples(idx, idx, idx, idx, idx, idx).map(lambda t: [
+            ['reg', t[0], t[1]], ['reg', t[2], t[3]], ['tick', t[0], 2], ['unreg', t[4], 0], ['fire_detached', t[5], 0],
+            ['tick', t[1], 2], ['tick', t[3], 2], ['tick', t[5], 2], ['fire_then_reg', t[5], t[2]], ['fire_inst', t[3], t[4]], ['tick', t[0], 1]])
+        nest = st.tuples(idx, idx, idx, idx, st.integers(0, 3)).map(lambda t: [
+            ['reg', 0, t[0]], ['reg', 0, t[1]], ['reg', 0, t[2]], ['unreg', t[3], 0], ['unreg_nested', t[0], 0]] +
+            ([['tick', t[1], 0]] if t[4] == 1 else []) + [['unreg_nested', t[2], 0]] + ([['unreg_again', t[1], 0]] if t[4] == 2 else []) +
+            [['fire', t[3], 0], ['fire_inst', t[0], t[1]], ['tick', t[2], 2], ['tick', t[3], 2]])
+        again = st.tuples(idx, idx, idx, st.integers(0, 2), st.integers(0, 2)).map(lambda t: [
+            ['reg', t[0], t[1]], ['unreg', t[2], 0]] + ([['tick', t[2], t[3]]] if t[4] else []) + [['unreg_again', t[2], 0], ['tick', t[1], t[3]],
+            ['fire_then_reg', t[2], t[0]], ['tick', t[0], 2]])
+        seg = st.one_of([op] * 14 + [cycle, nest, again])
+        m = 45 if tier == 'quick' else 70
         return st.fixed_dictionaries({
             'n': st.integers(3, 6),
             'chans': st.lists(st.sampled_from(['a', 'b', '*']), min_size=6, max_size=6),
-            'ops': st.lists(op, min_size=1, max_size=45 if tier == 'quick' else 70),
+            'ops': st.lists(seg, min_size=1, max_size=m).map(lambda segs: [o for sg in segs for o in sg][:m + 25]),
         })
 
     def execute(self, spec):
